@@ -76,3 +76,32 @@ prop("C05", "other",
      "relation between agent and client histories and is NOT decided statically.",
      [("C05.contain", c06.contain), ("C05.mono", c06.mono), ("C05.cont", c06.cont), ("C05.step", c06.stop_tables),
       ("C05.pybuf", py.bulk_buffer), ("C05.pystop", py.stop_mapping), ("C05.async", py.async_pairs), ("C05.fetch", py.fetch)])
+
+from .rules import v3, c18  # noqa: E402
+
+prop("C13", "other",
+     "Who-may-write, provenance and path rules on MIR plus Python AST ordering: engine_boots/engine_time/engine_id of the "
+     "v3 socket are written only in unwrap_pdu, only past the accepting edges (user name, msgID, request-id), from "
+     "msg.usm.* of the accepted message, boots/time on every accepted message and the engine id only while empty; push_pdu "
+     "stamps USM and scoped PDU from the same-named session fields; new()/set_keys() localise both keys with the auth "
+     "digest and the session engine id; OpRefresh is an empty GetRequest and flag_report is set exactly for it; both Python "
+     "clients defer the user iff no engine id, run refresh -> set_keys(deferred user) -> clear -> refresh and call refresh() "
+     "on context entry. Behaviour over multi-step agent histories beyond these premises is NOT decided.",
+     [("C13.adopt", v3.adopt), ("C13.stamp", v3.cred), ("C13.keys", v3.keys), ("C13.probe", v3.probe), ("C13.py", py.refresh_flow)])
+
+prop("C10", "other",
+     "Path rules on v3 unwrap_pdu/_recv_inner: delivery of a PDU must be guarded by a test of msg.usm.auth_params against "
+     "a digest under self.auth_key (C10.mac), by msg.flag_auth (C10.flag), and a plaintext scoped PDU must be refused when "
+     "privacy is configured (C10.priv); a failed decrypt never delivers and decrypt receives this message's data and USM "
+     "(C10.dec). The first three mechanisms are absent from the code: they are recorded as known findings (a repair needs "
+     "the raw datagram in unwrap_pdu and changes the SnmpSocket trait). MAC byte equality itself is not decided.",
+     [("C10", v3.c10)])
+
+prop("C18", "other",
+     "Mechanism premises only (wall-clock behaviour is NOT decided): get_socket arms SO_RCVTIMEO with "
+     "Duration::from_nanos(timeout_ns) iff timeout_ns > 0 and non-blocking mode otherwise on every path; the constructors "
+     "pass timeout_ns through; recv_socket maps WouldBlock, the error table maps it to BlockingIOError and every blocking "
+     "call of the sync client maps that to TimeoutError; the async _recv wraps the whole retry loop in "
+     "wait_for(self._timeout) and remaps the asyncio timeout; sync passes int(timeout*NS), async 0. The skip loop of "
+     "_recv_inner tests no deadline (C18.deadline): recorded as a known finding.",
+     [("C18.arm", c18.arm), ("C18.deadline", c18.deadline), ("C18.map", py.blocking_wrapped), ("C18.py", py.timeouts)])
